@@ -1,7 +1,58 @@
 import SemVerif.Spec.Codec
 import SemVerif.Inventory
-/-! # Property C20 — codec data model (round-trip theorem under construction) -/
+import SemVerif.Lemmas.CodecInj
+import SemVerif.Lemmas.CodecStackInj
+/-!
+# Property C20 — serialised forms round-trip (the part a model can carry)
+
+* `C20_shapes`: the serde attribute inventory regenerated from the sources is the one the data-model
+  encoder `encProgram` (Spec/Codec.lean) follows.
+* `C20_ast_injective`: the data model of the serialised AST is injective — two programs with the same
+  JSON value are the same program, for every program, size and nesting depth.  The correspondence
+  run checks that `encProgram` *is* serde_json's value of the real AST; so the real serialiser
+  loses no information on the AST domain, which is the half of "deserialising the result yields a
+  value equal to the original" that does not depend on the deserialiser.  That the real
+  deserialiser inverts it, that re-serialising gives the same text, and that the deserialised AST
+  analyses identically are checked natively on every generated program (and are where the
+  recorded findings F11, F12 live).
+-/
 namespace SemVerif
+
 /-- the serde attribute inventory of the sources is the one the codec model follows -/
 theorem C20_shapes : Generated.serdeShapes = Model.serdeShapes := inv_serdeShapes
+
+/-- **C20 (information preservation, AST)** -/
+theorem C20_ast_injective (p q : Program) (h : encProgram p = encProgram q) : p = q := encProgram_inj p q h
+
+/-- **C20 (information preservation, instruction stacks)** — for every pair of instruction stacks -/
+theorem C20_stack_injective (a b : List Instr) (h : encStack a = encStack b) : a = b := encStack_inj a b h
+
+/-- tag and field names of an adjacently tagged struct variant -/
+def Json.tagKeys : Json → Option (String × List String)
+  | .obj [("type", .str t), ("content", .obj kv)] => some (String.ofList t, kv.map (·.1))
+  | _ => none
+
+/-- one instruction per variant the data model encodes field by field (`FunctionDeclaration` is
+abbreviated in the model, `ExtendedExpression` carries the harness's own payload) -/
+def sampleInstrs : List Instr :=
+  let v : Value := default
+  let r : ExprResult := default
+  [.exprValue v 0, .exprConst default 0, .exprStructValue v 0 0, .exprOp .plus r r 0, .call default [] 0,
+   .letBinding v r, .binding v r, .const default, .types [] .nil, .fnReturn r, .fnReturnWithLabel r, .setLabel [],
+   .jumpTo [], .ifCondExpr r [] [], .condExpr r r .eq 0, .jumpFnReturn r, .logicCond .and 0 0 0, .ifCondLogic [] [] 0,
+   .fnArg v default]
+
+/-- the variant and field names the stack encoder writes are those of `SemanticStackContext` in the
+sources (regenerated on every run): renaming a field or a variant there breaks this obligation -/
+theorem C20_instr_keys :
+    sampleInstrs.filterMap (fun i => (encInstr i).tagKeys) =
+      Generated.instrShapes.filter (fun s => s.1 != "FunctionDeclaration" && s.1 != "ExtendedExpression") := by
+  decide +kernel
+
+/-- non-vacuity: two programs that differ only in one literal have different encodings -/
+example : encProgram [.const ⟨['K'], .prim .u8, .last (.val (.u8 1))⟩] ≠ encProgram [.const ⟨['K'], .prim .u8, .last (.val (.u8 2))⟩] := by
+  intro h
+  have := C20_ast_injective _ _ h
+  simp at this
+
 end SemVerif
